@@ -37,6 +37,8 @@ Proof.
       destruct (validate r (argn args p) t); [eapply IH; eassumption|inversion H; subst; assumption].
     + destruct (argn args p =? 0); [inversion H; subst; assumption|eapply IH; eassumption].
     + destruct (argn args p =? 0); [eapply IH; eassumption|inversion H; subst; assumption].
+    + destruct (argn args p =? 0); [eapply IH; eassumption|].
+      destruct (validate r (argn args p) t); [eapply IH; eassumption|inversion H; subst; assumption].
 Qed.
 
 Lemma guards_none_stays : forall gs args r own r' own' res x,
@@ -90,6 +92,8 @@ Proof.
       destruct (validate r (argn args p) t); [eapply IH; eassumption|eapply Stop; eassumption].
     + destruct (argn args p =? 0); [eapply Stop; eassumption|eapply IH; eassumption].
     + destruct (argn args p =? 0); [eapply IH; eassumption|eapply Stop; eassumption].
+    + destruct (argn args p =? 0); [eapply IH; eassumption|].
+      destruct (validate r (argn args p) t); [eapply IH; eassumption|eapply Stop; eassumption].
 Qed.
 
 (* ------------------------------------------------------------------ tracking the body's results *)
@@ -344,6 +348,61 @@ Proof.
     + destruct ((argn args l =? 0) || (ISIZE_MAX <? argn args l)).
       * apply Stop; [discriminate|intros _; discriminate].
       * destruct (Tail r own eq_refl BAD) as [r' [own' [c [A [B C]]]]]. exists r', own', c. split; [exact A|split; [intros Hb; apply B; apply andb_true_iff in Hb; tauto|exact C]].
+  - (* GDerefOpt: never the strict checker of p *) destruct (argn args p0 =? 0).
+    + destruct (Tail r own eq_refl BAD) as [r' [own' [c [A [B C]]]]]. exists r', own', c. split; [exact A|split; [intros Hb; apply B; apply andb_true_iff in Hb; tauto|exact C]].
+    + destruct (validate r (argn args p0) t0) as [|e] eqn:V.
+      * destruct (Tail r own eq_refl BAD) as [r' [own' [c [A [B C]]]]]. exists r', own', c. split; [exact A|split; [intros Hb; apply B; apply andb_true_iff in Hb; tauto|exact C]].
+      * apply Stop; destruct e; cbn; try discriminate; intros _; discriminate.
+Qed.
+
+(* the same for an optional handle parameter (`if !p.is_null() { deref_mut_or_return!(..) }`): NULL is allowed,
+   every other pointer that is not a live handle of the type is rejected *)
+Lemma guards_reject_bad_opt : forall gs args r own p t,
+  forallb no_undef gs = true ->
+  existsb (is_check_opt p t) gs = true ->
+  argn args p <> 0 ->
+  validate r (argn args p) t <> ROk ->
+  exists r' own' c, run_guards gs args r own = (r', own', GFail c) /\
+                    (forallb checked gs = true -> c <> CSilent) /\ c <> CBody.
+Proof.
+  induction gs as [|g gs IH]; intros args r own p t NU EX NZ BAD; cbn [forallb existsb] in *; [discriminate|].
+  apply andb_true_iff in NU. destruct NU as [NUg NU].
+  assert (Tail : forall r1 own1, is_check_opt p t g = false -> validate r1 (argn args p) t <> ROk ->
+            exists r' own' c, run_guards gs args r1 own1 = (r', own', GFail c) /\
+                              (checked g && forallb checked gs = true -> c <> CSilent) /\ c <> CBody).
+  { intros r1 own1 E B1. rewrite E in EX. cbn [orb] in EX.
+    destruct (IH args r1 own1 p t NU EX NZ B1) as [r' [own' [c [A [B C]]]]]. exists r', own', c.
+    split; [exact A|split; [intros Hb; apply B; apply andb_true_iff in Hb; tauto|exact C]]. }
+  assert (Stop : forall c, c <> CBody -> (checked g = true -> c <> CSilent) ->
+            exists r' own' c', (r, own, GFail c) = (r', own', GFail c') /\
+                               (checked g && forallb checked gs = true -> c' <> CSilent) /\ c' <> CBody).
+  { intros c C1 C2. exists r, own, c. split; [reflexivity|]. split; [|assumption].
+    intros Hb. apply andb_true_iff in Hb. apply C2. tauto. }
+  assert (Same : forall p0 t0, Nat.eqb p p0 && (t =? t0) = true -> p0 = p /\ t0 = t).
+  { intros p0 t0 E. apply andb_true_iff in E. destruct E as [E1 E2]. apply Nat.eqb_eq in E1. apply N.eqb_eq in E2. subst. split; reflexivity. }
+  cbn [FfiGuards.run_guards]. destruct g; cbn [no_undef] in NUg; try discriminate; cbn [is_check_opt] in *.
+  - destruct (argn args p0 =? 0); [apply Stop; [discriminate|intros _; discriminate]|apply (Tail r own eq_refl BAD)].
+  - destruct (argn args p0 =? 0); [apply Stop; [discriminate|cbn [checked]; discriminate]|apply (Tail r own eq_refl BAD)].
+  - destruct (validate r (argn args p0) t0) as [|e] eqn:V.
+    + destruct (Nat.eqb p p0 && (t =? t0)) eqn:E; [destruct (Same _ _ E); subst; contradiction|apply (Tail r own eq_refl BAD)].
+    + apply Stop; destruct e; cbn; try discriminate; intros _; discriminate.
+  - destruct (validate r (argn args p0) t0) as [|e] eqn:V.
+    + destruct (untrack_ok _ _ _ V) as [i [Hi U]]. rewrite U.
+      destruct (Nat.eqb p p0 && (t =? t0)) eqn:E; [destruct (Same _ _ E); subst; contradiction|].
+      apply (Tail (remove (argn args p0) r) (i :: own) eq_refl).
+      intros Hv. apply BAD. eapply validate_remove_mono; eassumption.
+    + rewrite (untrack_err _ _ _ _ V). apply Stop; destruct e; cbn; try discriminate; intros _; discriminate.
+  - destruct (argn args p0 =? 0); [apply Stop; [discriminate|intros _; discriminate]|].
+    destruct (maxstr <? argn args p0 - 1); [apply Stop; [discriminate|intros _; discriminate]|apply (Tail r own eq_refl BAD)].
+  - destruct (argn args p0 =? 0); [apply Stop; [discriminate|intros _; discriminate]|].
+    destruct ((argn args l =? 0) || (ISIZE_MAX <? argn args l)); [apply Stop; [discriminate|intros _; discriminate]|apply (Tail r own eq_refl BAD)].
+  - destruct (Nat.eqb p p0 && (t =? t0)) eqn:E.
+    + destruct (Same _ _ E); subst. destruct (N.eqb_spec (argn args p) 0); [contradiction|].
+      destruct (validate r (argn args p) t) as [|e] eqn:V; [contradiction|].
+      apply Stop; destruct e; cbn; try discriminate; intros _; discriminate.
+    + destruct (argn args p0 =? 0); [apply (Tail r own eq_refl BAD)|].
+      destruct (validate r (argn args p0) t0) as [|e] eqn:V; [apply (Tail r own eq_refl BAD)|].
+      apply Stop; destruct e; cbn; try discriminate; intros _; discriminate.
 Qed.
 
 Definition is_untrack (g : guard) : bool := match g with GUntrack _ _ => true | _ => false end.
@@ -457,6 +516,8 @@ Proof.
     destruct (validate r (argn args p) t); [apply Same; assumption|inversion H].
   - destruct (argn args p =? 0); [inversion H|apply Same; assumption].
   - destruct (argn args p =? 0); [apply Same; assumption|inversion H].
+  - destruct (argn args p =? 0); [apply Same; assumption|].
+    destruct (validate r (argn args p) t); [apply Same; assumption|inversion H].
 Qed.
 
 Lemma guards_own_incl : forall gs args r own r' own' res,
@@ -580,6 +641,55 @@ Proof.
   intros f k t args b s FG N BAD. unfold fn_guarded in FG. apply andb_true_iff in FG. destruct FG as [C P].
   apply bad_arg_no_effect with (p := k) (t := t); try assumption.
   apply (params_guarded_handle _ _ O k t P N).
+Qed.
+
+(* ------------------------------------------------------------------ optional handle parameters *)
+
+Theorem bad_opt_arg_no_effect : forall gs args b s p t,
+  forallb checked gs = true ->
+  existsb (is_check_opt p t) gs = true ->
+  argn args p <> 0 ->
+  validate (s_reg s) (argn args p) t <> ROk ->
+  exists s' c own,
+    step s (CApi gs args b) = (s', OErr c, map Consumed own) /\
+    c <> CSilent /\ c <> CBody /\
+    s_next s' = s_next s /\
+    (forall x e, lookup x (s_reg s') = Some e -> lookup x (s_reg s) = Some e) /\
+    (forallb (fun g => negb (is_untrack g)) gs = true -> s' = s /\ own = []).
+Proof.
+  intros gs args b [r n] p t CH EX NZ BAD. cbn [s_reg s_next] in *.
+  destruct (guards_reject_bad_opt gs args r [] p t (checked_no_undef _ CH) EX NZ BAD) as [r' [own' [c [G [C1 C2]]]]].
+  exists (St r' n), c, own'. cbn [FfiGuards.step s_reg s_next]. rewrite G. repeat split.
+  - apply C1; assumption.
+  - assumption.
+  - intros x e. eapply guards_submap; eassumption.
+  - destruct (guards_borrow_only _ _ _ _ _ _ _ H G) as [-> _]. reflexivity.
+  - destruct (guards_borrow_only _ _ _ _ _ _ _ H G) as [_ ->]. reflexivity.
+Qed.
+
+Lemma params_guarded_handle_opt : forall ps gs i k t,
+  params_guarded i ps gs = true -> nth_error ps k = Some (PHandleOpt t) -> existsb (is_check_opt (i + k) t) gs = true.
+Proof.
+  induction ps as [|q ps IH]; intros gs i k t H N; [destruct k; discriminate|].
+  cbn [params_guarded] in H. apply andb_true_iff in H. destruct H as [H1 H2]. destruct k as [|k]; cbn [nth_error] in N.
+  - inversion N; subst. rewrite Nat.add_0_r. assumption.
+  - replace (i + S k)%nat with (S i + k)%nat by lia. eapply IH; eassumption.
+Qed.
+
+Theorem guarded_fn_rejects_bad_opt_handle : forall f k t args b s,
+  fn_guarded f = true ->
+  nth_error (f_params f) k = Some (PHandleOpt t) ->
+  argn args k <> 0 ->
+  validate (s_reg s) (argn args k) t <> ROk ->
+  exists s' c own,
+    step s (CApi (f_guards f) args b) = (s', OErr c, map Consumed own) /\
+    c <> CSilent /\ c <> CBody /\ s_next s' = s_next s /\
+    (forall x e, lookup x (s_reg s') = Some e -> lookup x (s_reg s) = Some e) /\
+    (forallb (fun g => negb (is_untrack g)) (f_guards f) = true -> s' = s /\ own = []).
+Proof.
+  intros f k t args b s FG N NZ BAD. unfold fn_guarded in FG. apply andb_true_iff in FG. destruct FG as [C P].
+  apply bad_opt_arg_no_effect with (p := k) (t := t); try assumption.
+  apply (params_guarded_handle_opt _ _ O k t P N).
 Qed.
 
 End Hist.
